@@ -13,13 +13,13 @@ CHECKS = {
             "Every step and transition of every trace in the lattice satisfies the heat balance to 1e-12 relative; condensation heat present iff a permeate temperature is given; sibling models agree at step 0 (bit-identical fluxes for the ideal family).",
             "Component latent/specific heats taken as given (C13); value of the condensation heat not judged (no formula in the statement)"),
     "C18": (MC, "4.C18", "explicit-state invariant checking: admissibility invariant evaluated on every reported state of every trace of a lattice that includes coarse discretisations (first step removes 10%..1000% of the feed) and programmes crossing 0 K",
-            "No returned trajectory in the explored lattice contains a state with non-positive mass, fractions outside [0,1], non-positive or non-finite temperature, or non-finite fluxes/heats; raising is accepted.",
+            "No returned trajectory in the explored lattice contains a state with non-positive mass, fractions outside [0,1], non-positive or non-finite temperature, or non-finite fluxes/heats, and no returned trajectory ends with a step whose own balance exhausts the feed (look-ahead by the reference stepper); raising is accepted.",
             "a raising call is always acceptable for this property; lattice, not continuum"),
     "C02": (EX, "4.C02", "bounded exhaustive enumeration of a finite lattice of flux calculations through a harness-side observing subclass (seam on the fixed-point iteration); driving-force law at the last evaluated permeate composition, vacuum law, pressure identity, self-consistency where contractive, bit-exact power-of-two scaling",
-            "Every returned flux pair in the lattice satisfies the solution-diffusion law at the permeate composition actually used (1e-12), and the exact-scaling twin runs are bit-identical.",
+            "Every returned flux pair in the lattice satisfies the solution-diffusion law at the permeate composition actually used (1e-12; the observed estimate is converted by its own basis label), the exact-scaling twin runs are bit-identical, and the same question asked again on the same object after a coarser-precision question still satisfies the law within the requested precision (seam-free form).",
             "get_partial_pressures taken as given (C04); pressure mode accepts mass or mole permeate fractions; raising/non-converging cases only counted (C10)"),
     "C10": (MC, "4.C10", "lasso detection on the exact float orbit of the permeate-composition iteration (explicit-state liveness): a revisited float state plus continued iteration beyond B=1e6 evaluations is a violation; aperiodic budget exhaustion is undecided; also every step of process models near equilibrium",
-            "No flux calculation in the lattice (dense near feed/permeate equilibrium, where attracting cycles exist) is still iterating on a periodic orbit after 1e6 evaluations; periodic orbits found are reported and all end in an error.",
+            "No flux calculation in the lattice (dense near feed/permeate equilibrium, where attracting cycles exist) is still iterating after 1e6 evaluations, on a periodic orbit or otherwise; the dangerous states found (cycling or > 20000 evaluations) are then driven through all 8 public entry points (4 process models, 2 curve models, 2 helpers), each of which must return or raise.",
             "B=1e6 is the harness's reading of 'bounded'; memoised evaluation after proved periodicity; undecided orbits are not violations"),
     "C04": (EX, "4.C04", "bounded exhaustive enumeration of mixtures (8 built-in, 4 synthetic, lattice of synthetic NRTL/UNIQUAC parameters) x model x T x x; Gibbs-Duhem by Richardson finite differences with self-estimated truncation error; pure limits; Raoult limit; x*gamma*Psat; known-finding signature test for K1",
             "NRTL is thermodynamically consistent on the whole lattice; UNIQUAC gamma_1 is; UNIQUAC gamma_2 deviates exactly as the documented typo K1 predicts (KNOWN-FINDING) and any other deviation is a violation.",
@@ -40,7 +40,7 @@ CHECKS = {
             "Every entry point named by the statement raises for the double specification and for missing model parameters/constants, while each accepts at least one case of every valid cell; curve without data, mixture without parameters, <2 experiments without Ea are rejected at every site.",
             "any Exception subclass counts as rejection; DiffusionCurve-from-permeances is a negative control only"),
     "C08": (MC, "4.C08", "explicit-state trace conformance: every step of every process trace replayed against the standalone flux solver at the reported state (bit-identical), plus exhaustive differential comparison of five entry points on a model-sensitive lattice",
-            "Solver, helpers, one-point curve and step 0 of the ideal models report bit-identical fluxes for the requested model; derived quantities (permeate composition, separation factor in one basis, PSI) are consistent; every process step equals a standalone calculation at its reported state.",
+            "Solver, helpers, one-point curve and step 0 of the ideal models report bit-identical fluxes for the requested model - also when the same object answered the other model first; the solver honours the model on both sides of the membrane (independent oracle through the seam); derived quantities are consistent; every process step equals a standalone calculation at its reported state and, for ideal models, one that takes its permeances from the membrane at the step's temperature.",
             "bit-identity demanded only where the same computation runs on the same floats; molar feeds compared with rounding-aware tolerance"),
     "C09": (EX, "4.C09", "bounded exhaustive enumeration of a round trip: real solver forward (precision 1e-12), curve-class inverse; permeance->flux->permeance through the curve class in 3 units; two-sided known-finding signature for K2",
             "In vacuum and permeate-temperature mode the curve reports the supplied permeances back (1e-6) on the whole well-conditioned lattice, always in kg/(m2 h kPa); in pressure mode p>0 the deviation is exactly the documented mass-vs-mole-fraction mismatch K2 (KNOWN-FINDING), anything else is a violation.",
